@@ -68,7 +68,13 @@ func IsFragment(b []byte) bool {
 // 65535 are rejected), the piece is non-empty and contains no comma, and the
 // fragment ends with a comma. Semantic checks on k and n (k == 0, n == 0,
 // k > n) are left to Reassembler.Add, which ignores such fragments.
-func ParseFragment(b []byte) (FragInfo, error) {
+func ParseFragment(b []byte) (FragInfo, error) { return parseFragment(b, false) }
+
+// ParseFragmentLenient reads like a tolerant receiver: it also takes a piece that is empty
+// (implementations exist that emit one; what a receiver does with it is its own choice).
+func ParseFragmentLenient(b []byte) (FragInfo, error) { return parseFragment(b, true) }
+
+func parseFragment(b []byte, allowEmpty bool) (FragInfo, error) {
 	var f FragInfo
 	rest := b
 	switch {
@@ -105,13 +111,15 @@ func ParseFragment(b []byte) (FragInfo, error) {
 	}
 	f.K, f.N = k, n
 	rest = rest[12:]
-	// The piece may be empty: the format is "%s," and an empty string matches
-	// it (otr3 emits an empty last piece when the length is a multiple of the
-	// payload size; reassembly is unaffected).
 	if len(rest) < 1 || rest[len(rest)-1] != ',' {
 		return f, errors.New("refotr: fragment: missing trailing comma")
 	}
 	piece := rest[:len(rest)-1]
+	if len(piece) == 0 && !allowEmpty {
+		// "each piece[k,n] must be non-empty" (Fragmentation); libotr's sscanf("%s,") does not
+		// match an empty piece either, so such a fragment is dropped by it and the message lost
+		return f, errors.New("refotr: fragment: empty piece")
+	}
 	if bytes.IndexByte(piece, ',') >= 0 {
 		return f, errors.New("refotr: fragment: comma inside piece")
 	}
